@@ -705,8 +705,16 @@ SAVE_FRAMES = (":save_results", ":save_kwargs", ":get_result_dictionary",
 def make_history(case):
     # the wall-clock limit is a backstop only (inconclusive, never a
     # violation); nominal run time is 5-30 s
-    return configs.history_from(case, MONITORS, post=POST,
-                                extra={"timeout": 600})
+    h = configs.history_from(case, MONITORS, post=POST,
+                             extra={"timeout": 600})
+    if case.get("relocate") and len(h["steps"]) > 1:
+        # the run directory is copied after the kill and the run is resumed
+        # in the copy: the result file belongs in the directory the
+        # FlowSampler was given
+        for s in h["steps"][1:]:
+            s["output_subdir"] = "out_moved"
+            s["copy_output_from"] = "out"
+    return h
 
 
 @st.composite
@@ -764,6 +772,11 @@ def run_cases(ctx):
         if i % 3 == 1:
             kw["pool"] = {"__pool__": 2}
             labels.append("user-pool")
+        if i % 3 == 0 and "max_iteration" not in labels:
+            # every run of the check contains a run that is cut short by the
+            # iteration cap (stored evidence = rectangle rule, not refined)
+            kw["max_iteration"] = 3 * kw["nlive"]
+            labels.append("max_iteration")
         cases.append(dict(c, kwargs=kw, labels=labels))
     for i, c in enumerate(ins):
         kw = dict(c["kwargs"])
@@ -776,7 +789,18 @@ def run_cases(ctx):
         if i % 4 == 3:
             kw["pool"] = {"__pool__": 2}
             labels.append("user-pool")
-        cases.append(dict(c, kwargs=kw, labels=labels))
+        c = dict(c, kwargs=kw, labels=labels)
+        if i % 6 == 2:
+            # killed once, the run directory copied, resumed in the copy
+            kw["checkpointing"] = True
+            kw["checkpoint_on_iteration"] = True
+            kw["checkpoint_interval"] = 1
+            kw["max_iteration"] = max(kw.get("max_iteration", 6), 6)
+            dpi = 2 if iid else 1
+            c["kills"] = [{"event": "level", "k": dpi * 2 + 1}]
+            c["relocate"] = True
+            c["labels"] = labels + ["history:killed-copied-resumed"]
+        cases.append(c)
     return cases
 
 
